@@ -177,12 +177,17 @@ class FQN:
                         return_value = find_obj(m, name)
                         if return_value is not None:
                             return return_value
+                # Objects created by textX are searched through their
+                # containment attributes only (not through references or
+                # the parent link).
+                tx_attrs = getattr(type(parent), "_tx_attrs", None)
                 for attr in [
                     a
                     for a in parent.__dict__
                     if not a.startswith("__")
                     and not a.startswith("_tx_")
                     and not callable(getattr(parent, a))
+                    and (tx_attrs is None or (a in tx_attrs and tx_attrs[a].cont))
                 ]:
                     obj = getattr(parent, attr)
                     if isinstance(obj, (list, tuple)):
